@@ -2,3 +2,4 @@ import Driver.Proto
 import Driver.CmdFilter
 import Driver.CmdCtl
 import Driver.CmdLog
+import Driver.CmdPipe
